@@ -81,6 +81,7 @@ func init() {
 		Funcs: []string{"tcell.NewEventMouse", "tcell.(*tScreen).clip", "tcell.(*tScreen).buildMouseEvent", "tcell.(*tScreen).parseXtermMouse", "tcell.(*tScreen).parseSgrMouse",
 			// the driver asks both mouse parsers before it gives a byte away as a key (whatever the introducer was)
 			"tcell.(*tScreen).collectEventsFromInput"},
+		Custom: []func(*PropRun){c12HugeCoords},
 		Trusted: []string{"xterm ctlseqs 'Button event tracking' encoding as transcribed in the spec functions xbtn/xmod",
 			"bytes.Buffer methods executed from the standard library's own source"},
 		Assume: []string{"the screen is at least 1x1 when mouse reports are decoded (clip precondition)", "wheel left/right codes (bits 6 and 1 both set) are outside the property"},
@@ -1548,4 +1549,72 @@ func c08FillEnum(run *PropRun) {
 	g.ReplayDir = run.Eng.Repo
 	g.ReplayGo = src
 	run.Extra["fill_enumeration_buffers_bounded"] = 729 * 5
+}
+
+// c12HugeCoords: "all coordinates (... beyond the screen, multi-digit)": the decimal value in the parser's contract is
+// the 64-bit value the code accumulates, so a coordinate with more digits than an int holds is outside what that
+// clause pins down. Bounded native stand-in: SGR reports whose coordinates have 1..25 digits (and the values around
+// 2^63 and 2^64) through the real parser on an 80x24 screen: the position is the far edge (or 0 for negative ones).
+func c12HugeCoords(run *PropRun) {
+	src := replayTest("tcell", []string{"bytes", "strconv", "strings", modPath + "/terminfo"}, `
+	scr := &tScreen{ti: &terminfo.Terminfo{Mouse: "\x1b[M"}}
+	scr.cells.Resize(80, 24)
+	scr.w, scr.h = 80, 24
+	var coords []string
+	for n := 1; n <= 25; n++ { coords = append(coords, strings.Repeat("9", n)) }
+	coords = append(coords, "9223372036854775807", "9223372036854775808", "9223372036854775809", "18446744073709551615", "18446744073709551616", "18446744073709551621", "100000000000000000000")
+	bad := ""
+	n := 0
+	for _, c := range coords {
+		for _, neg := range []bool{false, true} {
+			cs := c
+			wantX, wantY := 79, 23
+			if len(c) <= 3 {
+				v, _ := strconv.Atoi(c)
+				if v-1 < wantX { wantX = v - 1 }
+				if v-1 < wantY { wantY = v - 1 }
+			}
+			if neg { cs = "-" + c; wantX, wantY = 0, 0 }
+			for axis := 0; axis < 2; axis++ {
+				rep := "\x1b[<0;" + cs + ";7M"
+				if axis == 1 { rep = "\x1b[<0;5;" + cs + "M" }
+				var evs []Event
+				buf := bytes.NewBufferString(rep)
+				_, comp := scr.parseSgrMouse(buf, &evs)
+				n++
+				if !comp || len(evs) != 1 { bad = fmt.Sprintf("%q: not decoded as one report", rep); break }
+				m, ok := evs[0].(*EventMouse)
+				if !ok { bad = fmt.Sprintf("%q: not a mouse event", rep); break }
+				x, y := m.Position()
+				if axis == 0 && x != wantX || axis == 1 && y != wantY {
+					bad = fmt.Sprintf("%q on an 80x24 screen decodes to position (%d,%d): a coordinate beyond the screen is clipped to the edge (want %d)", rep, x, y, map[bool]int{true: wantX, false: wantY}[axis == 0])
+					break
+				}
+				scr.buttondn = false
+			}
+			if bad != "" { break }
+		}
+		if bad != "" { break }
+	}
+	if bad != "" { fmt.Println("HUGECOORD FAIL " + bad); fail("%s", bad); return }
+	fmt.Printf("HUGECOORD OK %d\n", n)`)
+	out, err := runOverlayTest(run.Eng.Repo, run.Eng.Repo, src, 120*time.Second, nil)
+	ok, detail := false, ""
+	for _, ln := range strings.Split(out, "\n") {
+		if strings.HasPrefix(ln, "HUGECOORD OK ") {
+			ok = true
+			detail = strings.TrimPrefix(ln, "HUGECOORD OK ") + " reports"
+		}
+		if strings.HasPrefix(ln, "HUGECOORD FAIL ") && detail == "" {
+			detail = strings.TrimPrefix(ln, "HUGECOORD FAIL ")
+		}
+	}
+	if !ok && detail == "" {
+		run.Errors = append(run.Errors, fmt.Sprintf("huge-coordinate check did not run: %v %s", err, tail(out, 400)))
+		return
+	}
+	g := run.AddObligation("parseSgrMouse/many-digit-coordinates-clipped", "bounded", BoolT(ok),
+		"SGR reports whose coordinates have 1..25 digits, positive and negative, are clipped to the edge of an 80x24 screen (native, bounded list): "+detail)
+	g.ReplayDir = run.Eng.Repo
+	g.ReplayGo = src
 }
